@@ -35,6 +35,12 @@ pub struct StreamCase {
     /// probability (percent) of comment/blank bursts
     pub burst: u8,
     pub interrupts: bool,
+    /// swarm profile: which item forms this run may produce (bit mask, never 0); lets whole runs
+    /// consist of e.g. named BTOR2 nodes without a single constant line
+    pub profile: u32,
+    /// DIMACS: declare exactly this many clauses in the header, then fill the rest of the stream
+    /// with a trailer of comment / blank lines (0 = counts unspecified)
+    pub declared: u64,
 }
 
 pub struct StreamSource {
@@ -52,6 +58,9 @@ pub struct StreamSource {
     started: bool,
     next_id: u64,
     aig_code: u64,
+    profile: u32,
+    declared: u64,
+    clauses_out: u64,
     burst_left: usize,
     /// 0 mixed, 1 comment lines only, 2 blank lines only
     burst_kind: u8,
@@ -81,6 +90,9 @@ impl StreamSource {
             started: false,
             next_id: 0,
             aig_code: 2,
+            profile: if c.profile == 0 { u32::MAX } else { c.profile },
+            declared: c.declared,
+            clauses_out: 0,
             burst_left: 0,
             burst_kind: 0,
             blank_style: 0,
@@ -109,20 +121,20 @@ impl StreamSource {
             self.started = true;
             match self.kind {
                 PKind::Cnf => {
-                    if rng.chance(1, 2) {
-                        let _ = writeln!(p, "p cnf {} 0", if rng.chance(1, 2) { 0 } else { lit_max });
+                    if self.declared > 0 || rng.chance(1, 2) {
+                        let _ = writeln!(p, "p cnf {} {}", if rng.chance(1, 2) { 0 } else { lit_max }, self.declared);
                         return;
                     }
                 }
                 PKind::Wcnf => {
-                    if rng.chance(1, 2) {
-                        let _ = writeln!(p, "p wcnf 0 0 {}", rng.next_u64());
+                    if self.declared > 0 || rng.chance(1, 2) {
+                        let _ = writeln!(p, "p wcnf 0 {} {}", self.declared, rng.next_u64());
                         return;
                     }
                 }
                 PKind::Gcnf => {
-                    if rng.chance(1, 2) {
-                        let _ = writeln!(p, "p gcnf 0 0 0");
+                    if self.declared > 0 || rng.chance(1, 2) {
+                        let _ = writeln!(p, "p gcnf 0 {} 0", self.declared);
                         return;
                     }
                 }
@@ -144,6 +156,13 @@ impl StreamSource {
             self.blank_style = rng.below(3) as u8;
         }
         let filler_ok = matches!(self.kind, PKind::Cnf | PKind::Wcnf | PKind::Gcnf | PKind::Btor2);
+        let trailer = self.declared > 0 && self.clauses_out >= self.declared;
+        if trailer && self.burst_left == 0 {
+            // the whole rest of the stream is a trailer of one flavour
+            self.burst_left = usize::MAX / 2;
+            self.burst_kind = rng.below(3) as u8;
+            self.blank_style = rng.below(3) as u8;
+        }
         if filler_ok && (self.burst_left > 0 || rng.chance(1, 12)) {
             let in_burst = self.burst_left > 0;
             self.burst_left = self.burst_left.saturating_sub(1);
@@ -202,6 +221,7 @@ impl StreamSource {
         };
         match self.kind {
             PKind::Cnf | PKind::Wcnf | PKind::Gcnf => {
+                self.clauses_out += 1;
                 if self.kind == PKind::Wcnf {
                     let _ = write!(p, "{} ", rng.next_u64() >> rng.below(64));
                 } else if self.kind == PKind::Gcnf {
@@ -215,7 +235,7 @@ impl StreamSource {
                         p.push(b'-');
                     }
                     let _ = write!(p, "{v}");
-                    if rng.chance(1, 40) {
+                    if self.profile & 0x100 != 0 && rng.chance(1, 40) {
                         p.extend_from_slice(b"\nc in between\n ");
                     } else {
                         p.push(b' ');
@@ -227,7 +247,15 @@ impl StreamSource {
                 self.next_id += 1;
                 let id = self.next_id;
                 let r = |rng: &mut Rng| 1 + rng.next_u64() % id;
-                match rng.below(6) {
+                // pick a form that the run's profile allows
+                let mut form = rng.below(6);
+                for _ in 0..6 {
+                    if self.profile & (1 << form) != 0 {
+                        break;
+                    }
+                    form = (form + 1) % 6;
+                }
+                match form {
                     0 => {
                         let _ = write!(p, "{id} sort bitvec {}", 1 + rng.below(64));
                     }
@@ -259,7 +287,7 @@ impl StreamSource {
                         let _ = write!(p, "{id} ite {} {} {} {}", r(rng), r(rng), r(rng), r(rng));
                     }
                 }
-                if rng.chance(1, 4) {
+                if self.profile & 0x40 != 0 && rng.chance(1, 4) {
                     p.extend_from_slice(b" ; trailing comment");
                 }
                 p.push(b'\n');
@@ -426,6 +454,16 @@ impl Prop for C10 {
             max_item,
             burst: *rng.pick(&[0u8, 1, 5, 30]),
             interrupts: rng.chance(1, 4),
+            profile: if rng.chance(1, 2) {
+                u32::MAX
+            } else {
+                (rng.next_u64() as u32 & 0x1ff) | (1 << rng.below(6))
+            },
+            declared: if kind.is_dimacs() && rng.chance(1, 4) {
+                1 + rng.below(3000) as u64
+            } else {
+                0
+            },
         }
     }
     fn exec(&self, case: &StreamCase, st: &mut Stats) -> RunOut {
@@ -565,6 +603,8 @@ impl Prop for C10 {
         kv.put("case.max_item", case.max_item);
         kv.put("case.burst", case.burst);
         kv.put("case.interrupts", case.interrupts);
+        kv.put("case.profile", case.profile);
+        kv.put("case.declared", case.declared);
     }
     fn decode(&self, kv: &Kv) -> Option<StreamCase> {
         Some(StreamCase {
@@ -585,6 +625,8 @@ impl Prop for C10 {
             max_item: kv.get_usize("case.max_item")?,
             burst: kv.get("case.burst")?.parse().ok()?,
             interrupts: kv.get("case.interrupts")? == "true",
+            profile: kv.get("case.profile").and_then(|s| s.parse().ok()).unwrap_or(u32::MAX),
+            declared: kv.get_u64("case.declared").unwrap_or(0),
         })
     }
     fn sample(&self, case: &StreamCase) -> Json {
@@ -596,6 +638,8 @@ impl Prop for C10 {
             ("max_item_bytes", Json::U(case.max_item as u64)),
             ("burst_per_10000", Json::U(case.burst as u64)),
             ("interrupted_reads", Json::Bool(case.interrupts)),
+            ("swarm_profile_mask", Json::U(case.profile as u64)),
+            ("declared_clause_count_then_trailer", Json::U(case.declared)),
             (
                 "bound_bytes",
                 Json::U(bound(case.chunk.unwrap_or(16 << 10), case.max_item) as u64),
